@@ -83,6 +83,11 @@ func Progs(rc *vk.Rec) {
 	case "c01", "c02":
 		nTotal = rc.N(1600, 48000)
 		cEvery = 6 // one accepted program in six also runs as sanitized C
+	case "c10":
+		// purity: every call of a method without an effect mark is bracketed by
+		// a hash of the receiver and of all argument memory (interpreter only)
+		nTotal = rc.N(480, 16000)
+		cEvery = 1 << 30
 	case "c04":
 		nTotal = rc.N(640, 16000)
 		cEvery = 1
@@ -212,7 +217,7 @@ func Progs(rc *vk.Rec) {
 		fixed   *wprog.Case // a hand-written case instead of a generated one
 	}
 	var extras []extra
-	if mode != "c02" {
+	if mode == "c01" || mode == "c04" {
 		for _, f := range []string{"G-high-bits-zero", "G-sat-small", "G-refined-arg-result", "G-io-arg-only-in-builtin"} {
 			for k := 0; k < 3; k++ {
 				extras = append(extras, extra{o: wprog.GenOptions{Family: f, Variant: 0, MaxScens: 1}, alwaysC: true})
@@ -222,11 +227,11 @@ func Progs(rc *vk.Rec) {
 	// hand-written programs (constructs no family emits: io_limit / io_bind,
 	// marks, history copies, statuses as values, nested public coroutines ...)
 	for _, hc := range wprog.HandCases() {
-		extras = append(extras, extra{alwaysC: mode != "c02", fixed: hc})
+		extras = append(extras, extra{alwaysC: mode == "c01" || mode == "c04", fixed: hc})
 	}
 	fams := wprog.Families()
 	for k := 0; k < 4*fams["R-signed"]; k++ { // each variant on several signed types
-		extras = append(extras, extra{o: wprog.GenOptions{Family: "R-signed", Variant: k % fams["R-signed"], MaxScens: 1, MaxCalls: 1 << 20}, alwaysC: mode != "c02"})
+		extras = append(extras, extra{o: wprog.GenOptions{Family: "R-signed", Variant: k % fams["R-signed"], MaxScens: 1, MaxCalls: 1 << 20}, alwaysC: mode == "c01" || mode == "c04"})
 	}
 	// every variant of every other family at least once, alone in its program
 	// (the random sample mixes 1-3 scenarios and picks variants at random)
@@ -308,6 +313,12 @@ func Progs(rc *vk.Rec) {
 					seen[sig] = true
 					rc.ViolateCase(sig, fmt.Sprintf("the checker accepted [%s] but at run time: %s at %s (values %s, limit %s)", c.ID, ev.Kind, ev.Node, ev.Values, ev.Limit), phase, idx, extra)
 				}
+			case ev.Prop == "C10" && mode == "c10":
+				sig := "pure-method-modified-state:" + tag
+				if !seen[sig] {
+					seen[sig] = true
+					rc.ViolateCase(sig, fmt.Sprintf("the compiler accepted [%s] but calling the unmarked (pure) method %s changed the receiver or argument memory (%s)", c.ID, ev.Node, ev.Values), phase, idx, extra)
+				}
 			case ev.Prop == "C02" && mode == "c02":
 				sig := "false-fact:" + tag + ":" + ev.Kind
 				if !seen[sig] {
@@ -326,6 +337,8 @@ func Progs(rc *vk.Rec) {
 			if len(out.Stats.NearEdge) == 0 {
 				rc.Class(c.ID + "|ran")
 			}
+		case "c10":
+			rc.Class("pure-calls|" + c.ID)
 		case "c02":
 			for k, v := range out.Stats.FactsNontriv {
 				if v > 0 {
